@@ -414,7 +414,7 @@ def run(ctx):
     ctx.flag("dfs_depth", depth)
     ctx.sample({"dfs_first_actions": firsts, "depth": depth, "states": n, "alphabet": ACTIONS})
     rng = ctx.rng
-    for k in range(ctx.pick(20, 250)):
+    for k in range(ctx.pick(20, 800)):
         if ctx.out_of_time():
             break
         path = random_history(ctx, rng, 60)
